@@ -5,47 +5,118 @@ Local Open Scope N_scope.
 
 (* ---- the two identity maps, every history of attach / announce / detach / stale-cleanup ---- *)
 (* general invariant (colliding identities included): unique keys; every live pipe has its reverse entry with
-   its latest identity; every forward entry is backed by a live pipe carrying that identity, and holds exactly
-   that pipe's uri and strategy *)
+   its latest identity; every forward entry (u, st, o) of identity i is backed by its recorded owner o: o is a live
+   pipe, its latest identity is i, and the entry holds exactly o's uri and strategy *)
 Theorem C11_router_inv : forall uri_of placeholder h,
   RInv uri_of (run uri_of placeholder h) (spec_run placeholder h).
 Proof. exact router_inv_holds. Qed.
+Theorem C11_router_inv_unfolded : forall uri_of placeholder h,
+  let m := run uri_of placeholder h in let s := spec_run placeholder h in
+  NoDup (map fst (fwd m)) /\ NoDup (map fst (rev m)) /\ NoDup (map fst s) /\
+  (forall p i st, sget p s = Some (i, st) -> rget p m = Some i) /\
+  (forall i u st o, fget i m = Some (u, st, o) -> rget o m = Some i /\ sget o s = Some (i, st) /\ u = uri_of o).
+Proof. exact router_inv_holds. Qed.
 
-(* identities pairwise distinct among live pipes: lookup by identity leads to the pipe that announced it,
-   the reverse map is exactly the live pipes, nothing else is in either map *)
+(* identities pairwise distinct among live pipes: lookup by identity leads to the pipe that announced it (which
+   is the entry's owner), the reverse map is exactly the live pipes, nothing else is in either map *)
 Theorem C11_lookup_true_peer : forall uri_of placeholder h,
   distinct_hist placeholder h = true ->
   let m := run uri_of placeholder h in let s := spec_run placeholder h in
-  (forall p i st, sget p s = Some (i, st) -> rget p m = Some i /\ fget i m = Some (uri_of p, st)) /\
+  (forall p i st, sget p s = Some (i, st) -> rget p m = Some i /\ fget i m = Some (uri_of p, st, p)) /\
   (forall p i, rget p m = Some i -> exists st, sget p s = Some (i, st)) /\
-  (forall i u st, fget i m = Some (u, st) -> exists p, sget p s = Some (i, st) /\ u = uri_of p) /\
+  (forall i u st o, fget i m = Some (u, st, o) -> sget o s = Some (i, st) /\ u = uri_of o) /\
   (forall p q i, rget p m = Some i -> rget q m = Some i -> p = q).
 Proof. exact lookup_true_peer_holds. Qed.
 
 (* colliding identities, exact behaviour *)
+(* the later claimant gets the forward entry and becomes its owner; nobody else's reverse entry moves *)
 Theorem C11_collision_last_wins : forall id p u t m,
-  (fget id (add_peer id p u m) = Some (u, SDefault) /\ forall q, q <> p -> rget q (add_peer id p u m) = rget q m) /\
-  (fget id (update_peer_identity p id u t m) = Some (u, strat_of_type t) /\
+  (fget id (add_peer id p u m) = Some (u, SDefault, p) /\ forall q, q <> p -> rget q (add_peer id p u m) = rget q m) /\
+  (fget id (update_peer_identity p id u t m) = Some (u, strat_of_type t, p) /\
    forall q, q <> p -> rget q (update_peer_identity p id u t m) = rget q m).
 Proof. exact (fun id p u t m => conj (collision_last_wins_add id p u m) (collision_last_wins_upd id p u t m)). Qed.
-Theorem C11_collision_detach_erases_live : forall p q id m,
-  p <> q -> rget p m = Some id -> rget q m = Some id ->
-  let m' := remove_peer_by_read_pipe q m in rget p m' = Some id /\ fget id m' = None.
-Proof. exact collision_detach_erases. Qed.
-Theorem C11_collision_reannounce_erases_live : forall p q id id' u t m,
-  p <> q -> id' <> id -> rget p m = Some id -> rget q m = Some id ->
-  let m' := update_peer_identity q id' u t m in rget p m' = Some id /\ fget id m' = None.
-Proof. exact collision_reannounce_erases. Qed.
-(* ... hence without the distinctness premise the "true peer" direction fails: a live peer that announced an
-   identity cannot be addressed (HostUnreachable / silent drop) *)
-Theorem C11_true_peer_under_collision_refuted :
+(* p and q both carry id, the forward entry of id belongs to p: q detaching takes away q's reverse entry and
+   nothing else - the live pipe p stays addressable *)
+Theorem C11_collision_detach_keeps_live : forall p q id u st m,
+  p <> q -> rget p m = Some id -> rget q m = Some id -> fget id m = Some (u, st, p) ->
+  let m' := remove_peer_by_read_pipe q m in
+  rget p m' = Some id /\ fget id m' = Some (u, st, p) /\
+  (forall j, fget j m' = fget j m) /\
+  (forall k, rget k m' = if k =? q then None else rget k m).
+Proof. exact collision_detach_keeps_live. Qed.
+(* likewise when q re-announces under another identity id' (update_peer_identity) or is attached anew under id'
+   (add_peer): q's own entry for id' appears, every other forward entry - that of id included - stays *)
+Theorem C11_collision_reannounce_keeps_live : forall p q id id' u st u' t m,
+  p <> q -> id' <> id -> rget p m = Some id -> rget q m = Some id -> fget id m = Some (u, st, p) ->
+  let m' := update_peer_identity q id' u' t m in
+  rget p m' = Some id /\ fget id m' = Some (u, st, p) /\
+  fget id' m' = Some (u', strat_of_type t, q) /\
+  (forall j, j <> id' -> fget j m' = fget j m) /\
+  (forall k, rget k m' = if k =? q then Some id' else rget k m).
+Proof. exact collision_reannounce_keeps_live. Qed.
+Theorem C11_collision_reattach_keeps_live : forall p q id id' u st u' m,
+  p <> q -> id' <> id -> rget p m = Some id -> rget q m = Some id -> fget id m = Some (u, st, p) ->
+  let m' := add_peer id' q u' m in
+  rget p m' = Some id /\ fget id m' = Some (u, st, p) /\
+  fget id' m' = Some (u', SDefault, q) /\
+  (forall j, j <> id' -> fget j m' = fget j m) /\
+  (forall k, rget k m' = if k =? q then Some id' else rget k m).
+Proof. exact collision_reattach_keeps_live. Qed.
+(* the dual: the detaching pipe q IS the owner - its entry goes (only that one); the other pipe p keeps its
+   reverse entry and is then not addressable, but nothing is delivered to a wrong peer *)
+Theorem C11_collision_owner_detach_removes : forall p q id u st m,
+  p <> q -> rget p m = Some id -> rget q m = Some id -> fget id m = Some (u, st, q) ->
+  let m' := remove_peer_by_read_pipe q m in
+  rget p m' = Some id /\ fget id m' = None /\
+  (forall j, j <> id -> fget j m' = fget j m) /\
+  (forall k, rget k m' = if k =? q then None else rget k m).
+Proof. exact collision_owner_detach_removes. Qed.
+(* ALL histories, no distinctness premise: whatever forward entry an identity has, it leads to a pipe that is
+   live now and whose latest attach/announcement carried that identity (the latest claimant), with its uri and
+   strategy; a message addressed to the identity is handed to that pipe's connection *)
+Theorem C11_latest_claimant_reachable : forall uri_of placeholder h,
+  let m := run uri_of placeholder h in let s := spec_run placeholder h in
+  forall i u st o, fget i m = Some (u, st, o) ->
+    u = uri_of o /\ rget o m = Some i /\ sget o s = Some (i, st).
+Proof. exact latest_claimant_reachable. Qed.
+Theorem C11_send_reaches_latest_claimant : forall uri_of placeholder h i u st o mandatory manual conn hint b payload,
+  fget i (run uri_of placeholder h) = Some (u, st, o) -> i <> [] -> conn (uri_of o) = COk ->
+  sget o (spec_run placeholder h) = Some (i, st) /\
+  router_send_multipart mandatory manual conn hint (run uri_of placeholder h) ((b, i) :: payload) =
+  (run uri_of placeholder h, SSent (uri_of o) (router_wire st manual (b, i) payload)).
+Proof. exact send_reaches_latest_claimant. Qed.
+(* ... and the entry stays with its owner o: attach / announce / detach of any OTHER pipe q leaves it alone,
+   unless q claims the identity itself and thereby becomes the owner (any map m) *)
+Theorem C11_nonowner_step_keeps_entry : forall uri_of placeholder m i u st o q,
+  fget i m = Some (u, st, o) -> q <> o ->
+  fget i (ev_step uri_of placeholder m (EDetach q)) = Some (u, st, o) /\
+  (forall ido, fget i (ev_step uri_of placeholder m (EAttach q ido)) =
+               if ident_eqb (eff_id placeholder q ido) i then Some (uri_of q, SDefault, q) else Some (u, st, o)) /\
+  (forall ido t, fget i (ev_step uri_of placeholder m (EAnnounce q ido t)) =
+                 if ident_eqb (eff_id placeholder q ido) i then Some (uri_of q, strat_of_type t, q) else Some (u, st, o)).
+Proof. exact nonowner_step_keeps_entry. Qed.
+(* the history that used to lose the live peer: 1 and 2 announce "A", the older pipe 1 detaches - "A" leads to 2 *)
+Theorem C11_collision_older_detach_example :
+  let h := [EAttach 1 None; EAnnounce 1 (Some [65]) (Some TDealer);
+            EAttach 2 None; EAnnounce 2 (Some [65]) (Some TDealer); EDetach 1] in
+  let m := run (fun q => q + 100) placeholder_id h in
+  sget 2 (spec_run placeholder_id h) = Some ([65], SDealer) /\ sget 1 (spec_run placeholder_id h) = None /\
+  rget 2 m = Some [65] /\ rget 1 m = None /\
+  fget [65] m = Some (102, SDealer, 2) /\
+  forall mandatory manual conn hint b payload, conn 102 = COk ->
+    router_send_multipart mandatory manual conn hint m ((b, [65]) :: payload) =
+    (m, SSent 102 (router_wire SDealer manual (b, [65]) payload)).
+Proof. exact collision_older_detach_example. Qed.
+(* what still fails without the distinctness premise: the NEWER claimant (the owner) detaches while the older one
+   is attached - the older live peer that announced the identity cannot be addressed (HostUnreachable / silent drop) *)
+Theorem C11_older_claimant_after_owner_leaves_refuted :
   exists h p i st, sget p (spec_run placeholder_id h) = Some (i, st) /\
-                   rget p (run (fun q => q) placeholder_id h) = Some i /\
-                   fget i (run (fun q => q) placeholder_id h) = None /\
+                   rget p (run (fun q => q + 100) placeholder_id h) = Some i /\
+                   fget i (run (fun q => q + 100) placeholder_id h) = None /\
                    forall mandatory manual conn hint b payload,
-                     snd (router_send_multipart mandatory manual conn hint (run (fun q => q) placeholder_id h) ((b, i) :: payload))
+                     snd (router_send_multipart mandatory manual conn hint (run (fun q => q + 100) placeholder_id h) ((b, i) :: payload))
                      = if mandatory then SUnreachable else SDropped.
-Proof. exact true_peer_collision_refuted. Qed.
+Proof. exact older_claimant_unreachable_after_owner_leaves. Qed.
 (* remove_peer_by_identity: any candidate may be the one HashMap iteration meets first; with at most one
    candidate the order is irrelevant *)
 Theorem C11_remove_by_identity_any_candidate : forall k id m,
@@ -100,8 +171,8 @@ Theorem C11_envelope_roundtrip :
      dealer_process_incoming false (router_wire s false idm payload) = norm_flags payload /\
      one_message (router_wire s false idm payload)) /\
   (* ROUTER -> DEALER (send part by part) *)
-  (forall mandatory conn hint m id u s payload,
-     id <> [] -> fget id m = Some (u, s) -> conn u = COk -> payload <> [] -> more_ok payload ->
+  (forall mandatory conn hint m id u s o payload,
+     id <> [] -> fget id m = Some (u, s, o) -> conn u = COk -> payload <> [] -> more_ok payload ->
      dealer_process_incoming false
        (wire_to u (snd (router_send_parts mandatory false conn hint (m, None) ((true, id) :: payload)))) = payload) /\
   (* REQ -> ROUTER *)
@@ -186,16 +257,16 @@ Theorem C11_send_decision : forall mandatory manual conn hint m frames,
   | SUnreachable =>
       mandatory = true /\ exists idm payload, frames = idm :: payload /\ snd idm <> [] /\
         ((fget (snd idm) m = None /\ m' = m) \/
-         (exists u s, fget (snd idm) m = Some (u, s) /\
+         (exists u s o, fget (snd idm) m = Some (u, s, o) /\
             ((conn u = CGone /\ m' = remove_peer_by_identity hint (snd idm) m) \/ (conn u = CClosed /\ m' = m))))
   | SDropped =>
       mandatory = false /\ exists idm payload, frames = idm :: payload /\ snd idm <> [] /\
         ((fget (snd idm) m = None /\ m' = m) \/
-         (exists u s, fget (snd idm) m = Some (u, s) /\
+         (exists u s o, fget (snd idm) m = Some (u, s, o) /\
             ((conn u = CGone /\ m' = remove_peer_by_identity hint (snd idm) m) \/ (conn u = CClosed /\ m' = m))))
   | SSent u w =>
-      m' = m /\ exists idm payload s, frames = idm :: payload /\ snd idm <> [] /\
-        fget (snd idm) m = Some (u, s) /\ conn u = COk /\ w = router_wire s manual idm payload
+      m' = m /\ exists idm payload s o, frames = idm :: payload /\ snd idm <> [] /\
+        fget (snd idm) m = Some (u, s, o) /\ conn u = COk /\ w = router_wire s manual idm payload
   end.
 Proof. exact send_multipart_decision. Qed.
 (* maps and send together: the message goes to the connection of the live pipe that announced the identity *)
@@ -212,8 +283,8 @@ Theorem C11_parts_unknown_mandatory : forall manual conn hint m id, id <> [] -> 
   router_send_part true manual conn hint (m, None) (true, id) = ((m, None), PUnreachable).
 Proof. exact (fun manual conn hint m id => parts_unknown_first true manual conn hint m id). Qed.
 Theorem C11_parts_unknown_misroute_refuted :
-  exists m conn unknown idB uB x,
-    fget unknown m = None /\ fget idB m = Some (uB, SDefault) /\ unknown <> idB /\
+  exists m conn unknown idB uB oB x,
+    fget unknown m = None /\ fget idB m = Some (uB, SDefault, oB) /\ unknown <> idB /\
     snd (router_send_parts false false conn 0 (m, None) [(true, unknown); (true, idB); (false, x)]) =
       [PDropped; PSent uB [(true, idB); delim true]; PSent uB [(false, x)]] /\
     dealer_process_incoming false
@@ -226,8 +297,8 @@ Theorem C11_parts_unknown_not_silent_refuted :
     snd (router_send_parts false false conn 0 (m, None) [(true, unknown); (false, x)]) = [PDropped; PInvalid].
 Proof. exact parts_unknown_not_silent_refuted. Qed.
 (* part-wise send (and the Default strategy) towards a REQ peer: the REQ application sees identity + delimiter *)
-Theorem C11_parts_to_req_exposes_envelope : forall mandatory conn hint m id u s payload,
-  id <> [] -> fget id m = Some (u, s) -> conn u = COk -> payload <> [] -> more_ok payload ->
+Theorem C11_parts_to_req_exposes_envelope : forall mandatory conn hint m id u s o payload,
+  id <> [] -> fget id m = Some (u, s, o) -> conn u = COk -> payload <> [] -> more_ok payload ->
   req_recv_multipart (wire_to u (snd (router_send_parts mandatory false conn hint (m, None) ((true, id) :: payload)))) =
   (true, id) :: delim true :: payload.
 Proof. exact parts_to_req. Qed.
@@ -239,8 +310,8 @@ Theorem C11_default_strategy_to_req_exposes_envelope : forall idm payload, snd i
     with_more idm :: match payload with [] => [delim false] | _ => delim true :: norm_flags payload end.
 Proof. exact (fun idm payload I => conj (default_strategy_to_req idm payload I) (router_wire_auto SDefault idm payload (or_introl eq_refl))). Qed.
 Theorem C11_parts_to_req_refuted :
-  exists m conn id u payload,
-    fget id m = Some (u, SReq) /\
+  exists m conn id u o payload,
+    fget id m = Some (u, SReq, o) /\
     req_recv_multipart (wire_to u (snd (router_send_parts false false conn 0 (m, None) ((true, id) :: payload)))) <> payload.
 Proof. exact parts_to_req_refuted. Qed.
 
@@ -252,7 +323,7 @@ Example C11_example :
   let m := run (fun p => p + 100) placeholder_id h in
   let payload := [(true, []); (true, [1; 2]); (false, [])] in
   distinct_hist placeholder_id h = true /\
-  fget [65] m = Some (103, SDealer) /\ fget (placeholder_id 2) m = Some (102, SReq) /\ rget 1 m = None /\
+  fget [65] m = Some (103, SDealer, 3) /\ fget (placeholder_id 2) m = Some (102, SReq, 2) /\ rget 1 m = None /\
   placeholder_id 2 = [112; 105; 112; 101; 58; 50] /\ placeholder_id 1234 = [112; 105; 112; 101; 58; 49; 50; 51; 52] /\
   router_recv false (Some TDealer) [65] (dealer_prepare false payload) = (true, [65]) :: payload /\
   dealer_process_incoming false (router_wire SDealer false (false, [65]) (map no_more payload)) = payload /\
